@@ -260,7 +260,12 @@ def r13_3(ctx: Ctx):
     # structural: notification loops range over the whole listener list, no break/continue/return
     for f in (drv, sd):
         loops = []
-        for hf in roles.helpers_of(f):
+        fs_ = list(roles.helpers_of(f))
+        for q_ in sorted(roles.reach(f)):
+            g_ = ctx.ix.funcs.get(q_)
+            if g_ is not None and g_ not in fs_ and roles.is_glue(g_):
+                fs_.append(g_)            # e.g. the methods of a notifier helper object
+        for hf in fs_:
             loops += [(hf, nn) for nn in ast.walk(hf.node) if isinstance(nn, ast.For)
                       and _loop_over_listeners(ctx, hf, nn)]
         ctx.floor(rid, f'listener loops in {f.short}', len(loops), 2 if f is drv else 1)
@@ -391,7 +396,12 @@ def r13_4(ctx: Ctx):
               key='R13.7::shared-listener-list')
     used = set()
     for f0 in (roles.iter_driver, roles.solve_driver):
-        for f in roles.helpers_of(f0):
+        fs_ = list(roles.helpers_of(f0))
+        for q_ in sorted(roles.reach(f0)):
+            g_ = ctx.ix.funcs.get(q_)
+            if g_ is not None and g_ not in fs_ and roles.is_glue(g_):
+                fs_.append(g_)
+        for f in fs_:
             for nn in ast.walk(f.node):
                 if isinstance(nn, ast.For) and _loop_over_listeners(ctx, f, nn):
                     used |= {o for o in pta.expr_pts(f, nn.iter) if o.kind == 'list'}
